@@ -248,7 +248,7 @@ func yearShards(tier string, seed int64, maxYear int, kind string) []Shard {
 	if tier == "thorough" {
 		return splitRanges([][2]int{{1, maxYear}}, 64, base)
 	}
-	return splitRanges(toRanges(quickYears(seed, maxYear)), 16, base)
+	return splitRanges(toRanges(quickYears(seed, maxYear)), 48, base)
 }
 
 // ---------------------------------------------------------------------------------------------
@@ -640,5 +640,5 @@ func narrowShards(tier string, seed int64) []Shard {
 		ys = append(ys, y)
 	}
 	sort.Ints(ys)
-	return splitRanges(toRanges(ys), 16, Shard{Tier: tier, Seed: seed})
+	return splitRanges(toRanges(ys), 48, Shard{Tier: tier, Seed: seed})
 }
